@@ -14,7 +14,7 @@ RULE = ("operation histories over {enqueue fresh | duplicate of a stored frame |
         "compared with a reference queue and after every step a clone of the real queue is "
         "drained and compared frame by frame. Non-trivial: at least one enqueue was accepted; "
         "distinct = distinct operation histories (frame ids abstracted).")
-RULE += (" Later rounds added: long (25..144 byte) messages and random walks over a wider alphabet (frame ids differing in high bits only, messages arriving as fragments, lone FIRST fragments).")
+RULE += (" Later rounds added: long (25..144 byte) messages and random walks over a wider alphabet (frame ids differing in high bits only, messages arriving as fragments, lone FIRST fragments), the frame accepted last arriving again - while still queued and after it was read (all histories of depth 7/8 over a 6-operation alphabet, and in the walks).")
 REQUIRED = {"enqueue_return": 50000, "dequeue_compare": 10000, "drain_compare": 50000,
             "bound_after_accept": 10000, "toggle_preserves": 5000, "node_toggle": 50, "walk_steps": 20000}
 BUDGET = {"quick": 480, "thorough": 900}
@@ -26,12 +26,16 @@ OPS = ["e_fresh", "e_dup", "e_twin", "e_reuse", "deq", "peek", "len", "max_lo", 
 #              one high bit: NOT a duplicate
 #  e_fragmsg - a 2-fragment message arriving as FIRST + LAST (only a FrameQueueFrag reassembles)
 #  e_first   - a FIRST fragment alone (a message that never completes; restarts the assembly)
-OPS_WALK = OPS + ["e_near", "e_fragmsg", "e_first"]
+#  e_again   - the frame that was accepted last arrives once more (same origin, frame id and type:
+#              a late re-transmission, a kept header used again) - a duplicate exactly while the
+#              first copy is still queued, a new frame once it has been read
+OPS_WALK = OPS + ["e_near", "e_fragmsg", "e_first", "e_again"]
+OPS_AGAIN = ["e_fresh", "e_again", "deq", "e_dup", "toggle", "e_twin"]
 WILD = None  # reserved byte of a reassembled frame: not compared
 
 
 class St:
-    __slots__ = ("real", "ref", "ctr", "last_obj", "frag")
+    __slots__ = ("real", "ref", "ctr", "last_obj", "frag", "last_acc")
 
 
 def _mk(m, frm, to, fid, typ, res, msg):
@@ -112,6 +116,16 @@ def _step(ctx, m, st, op, hist):
         exp = st.ref.enqueue(src[0], src[1], src[2], 0o3, 7, f.message)
         got = st.real.enqueue(f)
         ctx.clause("enqueue_return")
+    elif op == "e_again":
+        if st.last_acc is None:
+            return True
+        src = st.last_acc
+        st.ctr += 1
+        f = _mk(m, src[0], 0o3, src[1], src[2], 5, b"again%d" % st.ctr)
+        exp = st.ref.enqueue(src[0], src[1], src[2], 0o3, 5, f.message)
+        got = st.real.enqueue(f)
+        ctx.clause("enqueue_return")
+        ctx.clause("last_accepted_frame_again")
     elif op == "e_twin":
         # same origin and frame id as a stored frame but another type: NOT a duplicate
         if not st.ref.q:
@@ -180,6 +194,8 @@ def _step(ctx, m, st, op, hist):
                       "%s returned %r, reference %r (max=%d len=%d; history %r)"
                       % (op, got, exp, st.ref.max, len(st.ref), hist + [op]), {"ops": hist + [op]})
         return False
+    if op in ("e_fresh", "e_reuse") and got is True:
+        st.last_acc = (fields[0], fields[2], fields[3])
     if op.startswith("e_") and got and op != "e_first":
         ctx.clause("bound_after_accept")
         if len(st.real) > st.real.max_queue_size:
@@ -224,6 +240,7 @@ def clone_state(st):
     n.ctr = st.ctr
     n.last_obj = copy.deepcopy(st.last_obj)
     n.frag = st.frag
+    n.last_acc = st.last_acc
     return n
 
 
@@ -234,10 +251,23 @@ def fresh(m, frag):
     st.ctr = 0
     st.last_obj = None
     st.frag = frag
+    st.last_acc = None
     return st
 
 
-def dfs(ctx, m, st, hist, depth, accepted):
+def dfs(ctx, m, st, hist, depth, accepted, ops=None):
+    if ops is not None:
+        if depth == 0:
+            ctx.evaluations += 1
+            ctx.nontrivial(("again",) + tuple(hist))
+            return True
+        for op in ops:
+            n = clone_state(st)
+            if not step(ctx, m, n, op, hist):
+                return False
+            if not dfs(ctx, m, n, hist + [op], depth - 1, True, ops):
+                return False
+        return True
     if depth == 0:
         ctx.evaluations += 1
         if accepted:
@@ -270,6 +300,14 @@ def run_shard(ctx):
             dfs(ctx, m, st, [a, b], depth - 2, len(st.ref) > 0)
         if ctx.vcount:
             break
+    # all histories of depth 6 (quick) / 7 (thorough) over the small alphabet around "the frame accepted
+    # last arrives again" (sharded on the first two operations)
+    for k, (a, b) in enumerate([(a, b) for a in OPS_AGAIN for b in OPS_AGAIN]):
+        if k % ctx.nshards != ctx.shard or ctx.vcount:
+            continue
+        st = fresh(m, frag=bool(k & 1))
+        if step(ctx, m, st, "e_fresh", []) and step(ctx, m, st, a, ["e_fresh"]) and step(ctx, m, st, b, ["e_fresh", a]):
+            dfs(ctx, m, st, ["e_fresh", a, b], 4 if ctx.tier == "quick" else 5, True, OPS_AGAIN)
     _queue_walks(ctx, m)
     _node_walks(ctx, m)
     if ctx.shard == 0:
